@@ -45,16 +45,14 @@ func checkC06(p *Prog, r *Report) {
 		return
 	}
 	/* Admitting functions by direction. */
-	admitters := map[*ssa.Function]*types.Var{} /* → own field */
-	usIdx := paramIndex(a.Fn, a.Us)
+	admitters := map[*ssa.Function]string{} /* → entry name (one per direction) */
 	keyIdx := paramIndex(a.Fn, a.Key)
 	for _, ci := range a.Callers {
-		fu, _ := fieldAddrOf(ci.Common().Args[usIdx])
 		top := ci.Parent()
 		for nil != top.Parent() {
 			top = top.Parent()
 		}
-		admitters[top] = fu
+		admitters[top] = fnName(top)
 		/* Key passed whole. */
 		k := ci.Common().Args[keyIdx]
 		c := fnName(ci.Parent()) + "→" + fnName(a.Fn)
@@ -86,10 +84,10 @@ func checkC06(p *Prog, r *Report) {
 	both directions. */
 	var bidir []*ssa.Function
 	for _, fn := range p.Funcs() {
-		if nil != fn.Parent() || admitters[fn] != nil {
+		if nil != fn.Parent() || "" != admitters[fn] {
 			continue
 		}
-		dirs := map[*types.Var][]ssa.CallInstruction{}
+		dirs := map[string][]ssa.CallInstruction{}
 		for _, f := range withAnons(fn) {
 			eachInstr(f, func(i ssa.Instruction) {
 				if c := callCommon(i); nil != c && nil != c.StaticCallee() {
@@ -116,7 +114,7 @@ func checkC06(p *Prog, r *Report) {
 }
 
 // checkPairingToken inspects the keys passed to the two admitting calls.
-func checkPairingToken(p *Prog, ru *Rule, fn *ssa.Function, dirs map[*types.Var][]ssa.CallInstruction) {
+func checkPairingToken(p *Prog, ru *Rule, fn *ssa.Function, dirs map[string][]ssa.CallInstruction) {
 	c := fnName(fn)
 	var keys []ssa.Value
 	var sites []ssa.CallInstruction
@@ -265,7 +263,11 @@ func freshParts(fn *ssa.Function, v ssa.Value) (bool, string, []genUse) {
 					/* Slices of the array. */
 					if sl, ok := ref.(*ssa.Slice); ok {
 						for _, r2 := range *sl.Referrers() {
-							if c2, ok := r2.(*ssa.Call); ok && randFill[calleeName(c2.Common())] {
+							if c2, ok := r2.(*ssa.Call); ok && (randFill[calleeName(c2.Common())] || ("io.ReadFull" == calleeName(c2.Common()) && isRandReader(c2.Common().Args[0])) || ("io.ReadAtLeast" == calleeName(c2.Common()) && isRandReader(c2.Common().Args[0]))) {
+								if n >= 0 && n < 8 {
+									notes = append(notes, fmt.Sprintf("only %d random bytes", n))
+									continue
+								}
 								gens = append(gens, genUse{c2, true})
 								notes = append(notes, fmt.Sprintf("%d bytes from %s", n, calleeName(c2.Common())))
 							}
@@ -288,6 +290,24 @@ func freshParts(fn *ssa.Function, v ssa.Value) (bool, string, []genUse) {
 			if randValue[name] {
 				gens = append(gens, genUse{x, false})
 				notes = append(notes, "value from "+name)
+				return
+			}
+			/* A local builder: everything written into it. */
+			if "(*strings.Builder).String" == name || "(*bytes.Buffer).String" == name {
+				buf := resolveCell(x.Common().Args[0])
+				eachInstr(x.Parent(), func(j ssa.Instruction) {
+					c2 := callCommon(j)
+					if nil == c2 || 0 == len(c2.Args) || resolveCell(c2.Args[0]) != buf {
+						return
+					}
+					switch calleeName(c2) {
+					case "(*strings.Builder).WriteString", "(*strings.Builder).Write", "(*strings.Builder).WriteByte", "(*strings.Builder).WriteRune",
+						"(*bytes.Buffer).WriteString", "(*bytes.Buffer).Write", "(*bytes.Buffer).WriteByte", "(*bytes.Buffer).WriteRune":
+						if len(c2.Args) > 1 {
+							walk(c2.Args[1])
+						}
+					}
+				})
 				return
 			}
 			/* Formatting/encoding wrappers of a fresh value. */
